@@ -4,7 +4,10 @@ no /repo hook), against the spec-level oracle of designs/oracle.py:
 
   MethodMap.__init__                      [C04]  methods_by_transaction[t] = static call tree of t; transactions_by_method
                                                  is its inverse; one CallInfo per call path from t to m
-  TransactionManager._conflict_graph      [C01]  cgr symmetric; SpecConf(t, u) => u in cgr[t]               (soundness)
+  TransactionManager._conflict_graph      [C01]  cgr symmetric; SpecConf(t, u) => u in cgr[t]               (soundness;
+                                                 SpecConf here = Oracle.direct_method_conflict: the double activation is
+                                                 between a call reached from t and a call reached from u, not one that
+                                                 an enclosing transaction of a nested t or u causes by itself)
                                           [C07]  u in cgr[t], u != t => SpecConf(t, u) or t, u can never both be
                                                  enabled                                                   (tightness)
                                           [C08]  porder is a bijection onto 0..n-1 that puts hi before lo for every
@@ -58,14 +61,14 @@ def manager_contracts(pid, ctx, b, o):
         S("_conflict_graph.cgr_symmetric", all(t in adj[u] for t in adj for u in adj[t]))
         pairs, _ = o.explicit_conflicts()
         for t, u in itertools.combinations(sorted(tnames), 2):
-            if o.method_conflict(t, u) or frozenset((t, u)) in pairs:
-                S(f"_conflict_graph.sound[{t},{u}]", u in adj[t], "the two transactions can double-activate an exclusive method (or are related by add_conflict) but are not adjacent in cgr")
+            if o.direct_method_conflict(t, u) or frozenset((t, u)) in pairs:
+                S(f"_conflict_graph.sound[{t},{u}]", u in adj[t], "the calls of the two transactions can double-activate an exclusive method (or the two are related by add_conflict) but they are not adjacent in cgr")
     elif pid == "C07":
         pairs, _ = o.explicit_conflicts()
         for t in sorted(adj):
             for u in sorted(adj[t]):
                 if t < u:
-                    ok = o.method_conflict(t, u) or frozenset((t, u)) in pairs or not o.can_both_be_enabled(t, u)
+                    ok = o.direct_method_conflict(t, u) or frozenset((t, u)) in pairs or not o.can_both_be_enabled(t, u)
                     S(f"_conflict_graph.tight[{t},{u}]", ok, "adjacent in cgr although neither a shared exclusive method on non-exclusive paths nor add_conflict relates them")
     elif pid == "C08":
         po = {name_of[id(t)]: v for t, v in porder.items() if id(t) in name_of}
